@@ -276,6 +276,9 @@ impl DrawExecutor {
 
     fn get_pixel(&mut self, x: i32, y: i32) -> u8 {
         let offset = (y * self.get_resolution().width + x) as usize;
+        if offset >= self.screen.len() {
+            return 0;
+        }
         self.screen[offset]
     }
 
